@@ -14,17 +14,17 @@ struct M {
   W w;
   uint16_t rm = 0;                    // Receive Maximum of the current connection
   uint16_t acked[8]; int acked_upto[8]; int nacked = 0;  // (pid, packet-log watermark) the broker acknowledged on the current connection
-  int npub = 0, ncancel = 0, nreconn = 0;
+  int npub = 0, ncancel = 0, nreconn = 0; uint16_t rec_pid[8]; int rec_epoch[8]; int nrec = 0;
   bool is_acked(uint16_t pid, int idx) const { for (int i = 0; i < nacked; i++) if (acked[i] == pid && idx < acked_upto[i]) return true; return false; }
   // QoS>0 PUBLISH packets handed to the stream on this connection and not yet acknowledged by the broker
   int inflight(uint16_t* oldest = nullptr) {
     uint16_t seen[16]; int ns = 0;
     auto add = [&](uint16_t pid) { for (int i = 0; i < ns; i++) if (seen[i] == pid) return; if (ns < 16) seen[ns++] = pid; };
-    for (int i = 0; i < w.npk; i++) if (w.pk[i].epoch == w.epoch && w.pk[i].type == ref::PUBLISH && w.pk[i].qos > 0 && !is_acked(w.pk[i].pid, i)) add(w.pk[i].pid);
+    for (int i = 0; i < w.npk; i++) if (w.pk[i].epoch == w.epoch && ((w.pk[i].type == ref::PUBLISH && w.pk[i].qos > 0) || w.pk[i].type == ref::PUBREL) && !is_acked(w.pk[i].pid, i)) add(w.pk[i].pid);
     if (oldest) *oldest = ns ? seen[0] : 0;
     if (auto* s = vk::pending_write()) {          // packets inside a write in progress count as sent
       const uint8_t* p = reinterpret_cast<const uint8_t*>(s->wdata.data()); size_t n = s->wdata.size(), i = 0;
-      while (i < n) { ref::packet k; if (ref::decode(p + i, n - i, k) != ref::OK) break; if (k.type == ref::PUBLISH && k.qos > 0) add(k.pid); i += k.total; }
+      while (i < n) { ref::packet k; if (ref::decode(p + i, n - i, k) != ref::OK) break; if ((k.type == ref::PUBLISH && k.qos > 0) || k.type == ref::PUBREL) add(k.pid); i += k.total; }
     }
     return ns;
   }
@@ -52,13 +52,22 @@ extern "C" void h_c07(void) {
   for (int step = 0; step < VK_STEPS; step++) {
     uint32_t ev = vk_choose(5);
     switch (ev) {
-      case 0: { if (m->npub >= VK_PUBS) vk_assume(0); m->npub++; w.publish<qos_e::at_least_once>("t", "p"); vk::drain(); break; }
+      case 0: { if (m->npub >= VK_PUBS) vk_assume(0); m->npub++; if (vk_choose(2)) w.publish<qos_e::at_least_once>("t", "p"); else { w.publish<qos_e::exactly_once>("t", "p"); vk_reach("qos2-publish"); } vk::drain(); break; }
       case 1: { auto* s = vk::pending_write(); if (!s) vk_assume(0); w.finish_write(s, s->wdata.size(), {}); vk::drain(); break; }
       case 2: { uint16_t pid = 0; m->inflight(&pid); if (pid == 0 || vk::pending_write() || !w.connected()) vk_assume(0);
-                // the broker has the packet (it was fully received) and acknowledges it
-                bool got = false; for (int i = 0; i < w.npk; i++) if (w.pk[i].epoch == w.epoch && w.pk[i].type == ref::PUBLISH && w.pk[i].pid == pid) got = true;
-                if (!got) vk_assume(0);
-                m->acked[m->nacked] = pid; m->acked_upto[m->nacked++] = w.npk; w.ack(ref::PUBACK, pid); w.feed_all(); vk::drain(); vk_reach("acked"); break; }
+                // what the broker has of this exchange on this connection: PUBLISH (QoS 1 / 2), PUBREC already sent, PUBREL received
+                int qos = 0; bool rel = false, rec_sent = false;
+                for (int i = 0; i < w.npk; i++) if (w.pk[i].epoch == w.epoch && w.pk[i].pid == pid && !m->is_acked(pid, i)) { if (w.pk[i].type == ref::PUBLISH) qos = w.pk[i].qos; if (w.pk[i].type == ref::PUBREL) rel = true; }
+                for (int i = 0; i < m->nrec; i++) if (m->rec_pid[i] == pid && m->rec_epoch[i] == w.epoch) rec_sent = true;
+                if (!qos && !rel) vk_assume(0);
+                if (qos == 1) { m->acked[m->nacked] = pid; m->acked_upto[m->nacked++] = w.npk; w.ack(ref::PUBACK, pid); }
+                else if (rel) { m->acked[m->nacked] = pid; m->acked_upto[m->nacked++] = w.npk; w.ack(ref::PUBCOMP, pid); vk_reach("pubcomp"); }
+                else if (!rec_sent) {
+                  bool failing = vk_choose(2); m->rec_pid[m->nrec] = pid; m->rec_epoch[m->nrec++] = w.epoch;
+                  if (failing) { m->acked[m->nacked] = pid; m->acked_upto[m->nacked++] = w.npk; w.ack(ref::PUBREC, pid, 0x97, 1); vk_reach("failing-pubrec"); }    // a failing PUBREC completes the exchange
+                  else w.ack(ref::PUBREC, pid, 0, 1);
+                } else vk_assume(0);        // PUBREC sent, waiting for the client's PUBREL
+                w.feed_all(); vk::drain(); vk_reach("acked"); break; }
       case 3: { if (m->ncancel >= 1) vk_assume(0); int j = -1; for (int i = 0; i < w.nops; i++) if (!w.ops[i].done) { j = i; break; } if (j < 0) vk_assume(0);
                 m->ncancel++; w.cancel_op(j); vk::drain(); break; }
       default: { if (m->nreconn >= 1 || !w.connected()) vk_assume(0); m->nreconn++;
